@@ -22,7 +22,7 @@ ASSUMPTIONS = ['"recognised page": every line has baseline (2 px .. block width,
                'ALTO TextLine elements carry no id: lines are matched by order within their block']
 N = {'quick': 800, 'thorough': 40000}
 CLASSES = ['page', 'page', 'page_whitespace', 'page_arabic', 'page_conf', 'order_conversion', 'page_short_lines', 'page_long_lines']
-REQUIRED = ['pages_with_a_reading_order_other_than_the_held_order', 'blocks_with_line_indices_other_than_the_held_order', 'arabic_lines_in_presentation_forms_only', 'decomposed_lines', 'lines_with_an_outline_without_extent', 'aligned_lines_over_1000_frames', 'aligned_lines_with_offset_window', 'astral_lines', 'entity_like_lines', 'short_baseline_lines', 'exports', 'lines_expected', 'aligned_lines', 'fallback_lines', 'words_compared', 'nonascii_space_lines', 'arabic_lines', 'arabic_fallback_lines', 'dropped_lines',
+REQUIRED = ['pages_with_a_line_over_a_two_letter_alphabet', 'pages_with_a_reading_order_other_than_the_held_order', 'blocks_with_line_indices_other_than_the_held_order', 'arabic_lines_in_presentation_forms_only', 'decomposed_lines', 'lines_with_an_outline_without_extent', 'aligned_lines_over_1000_frames', 'aligned_lines_with_offset_window', 'astral_lines', 'entity_like_lines', 'short_baseline_lines', 'exports', 'lines_expected', 'aligned_lines', 'fallback_lines', 'words_compared', 'nonascii_space_lines', 'arabic_lines', 'arabic_fallback_lines', 'dropped_lines',
             'printspace_checked', 'reimports', 'conversions_checked']
 NS = '{http://www.loc.gov/standards/alto/ns-v2#}'
 CH = list("abcdefgh.,-") + [' '] + list('ابتثج')
@@ -96,6 +96,12 @@ def gen(rng, i, ctx):
                 else:
                     toks.append(str(rng.choice(['(', ')', '%', '/', '@'])))
             out.append(''.join(toks))
+        # (round 8) invisible directional marks (LRM, RLM, ALM) at the boundary between an Arabic and a Latin word
+        for _ in range(12):
+            ar = ''.join(AR[int(x)] for x in rng.integers(0, len(AR), size=int(rng.integers(1, 5))))
+            la = ''.join('abcXYZ'[int(x)] for x in rng.integers(0, 6, size=int(rng.integers(1, 5))))
+            mk_ = str(rng.choice(['\u200e', '\u200f', '\u061c']))
+            out.append(str(rng.choice([ar + mk_ + la, la + mk_ + ar, ar + ' ' + mk_ + la + ' ' + ar, la + mk_ + ' ' + ar + mk_, mk_ + ar + ' ' + la])))
         return {'cls': cls, 'strings': out}
     H, W = int(rng.integers(500, 1400)), int(rng.integers(700, 1700))
     blocks = []
@@ -158,6 +164,14 @@ def gen(rng, i, ctx):
     case = {'cls': cls, 'size': [H, W], 'blocks': blocks, 'min_line_confidence': mlc}
     # drawn last (round 7): a reading order assigned to the page after it was built, disagreeing with the order in which the page holds its regions;
     # PAGE-style line indices on every line of a block, disagreeing with the order in which the block holds its lines
+    # (round 8) a line recognised by a model with a tiny alphabet ('a', 'b', blank space): a letter and its two neighbours can make up the whole alphabet
+    cands = [l for b_ in blocks for l in b_['lines']]
+    if cands and rng.random() < 0.25:
+        l_ = cands[int(rng.integers(0, len(cands)))]
+        if l_.get('script') != 'arabic':
+            words = [''.join('ab'[int(k)] for k in rng.integers(0, 2, size=int(rng.integers(1, 5)))) for _ in range(int(rng.integers(1, 4)))]
+            l_['text'], l_['alphabet'], l_['mode'], l_['sep'] = ' '.join(words), 'ab ', str(rng.choice(['peaky', 'noisy'])), 'single'
+            case['tiny_alphabet'] = True
     if rng.random() < 0.3 and len(blocks) >= 2:
         perm = [int(x) for x in rng.permutation(len(blocks))]
         case['reading_order'] = {blocks[k]['id']: n for n, k in enumerate(perm)}
@@ -180,8 +194,9 @@ def build(L, case):
             # a confidence left by an earlier stage (the page parser's estimate, or a rounded value read from PAGE XML): the export reports its own estimate
             tl.transcription_confidence = [None, None, 0.0, 0.31, 0.5, 1.0][l['seed'] % 6]
             if l['mode'] != 'absent' and l['text']:
-                lg, T = mk_logits(np.random.default_rng(l['seed']), l['text'], CH, 'peaky' if l['mode'] == 'nocoords' else l['mode'])
-                tl.logits, tl.characters = lg, list(CH) + ['<blank>']
+                chars_ = list(l.get('alphabet', CH))
+                lg, T = mk_logits(np.random.default_rng(l['seed']), l['text'], chars_, 'peaky' if l['mode'] == 'nocoords' else l['mode'])
+                tl.logits, tl.characters = lg, chars_ + ['<blank>']
                 tl.logit_coords = [None, None] if l['mode'] == 'nocoords' else [0, T]
                 p0, p1 = l.get('pad', [0, 0])
                 if l['mode'] != 'nocoords' and p0 + p1 > 0:
@@ -238,6 +253,8 @@ def check(case, mon, ctx):
         mon.violation('export-never-fails', {'exception': repr(e)[:200], 'at': '%s:%s %s' % (where.filename.split('/')[-1], where.lineno, (where.line or '')[:80])})
         return
     mon.count('exports')
+    if case.get('tiny_alphabet'):
+        mon.count('pages_with_a_line_over_a_two_letter_alphabet')
     if case.get('reading_order'):
         mon.count('pages_with_a_reading_order_other_than_the_held_order')
     if case.get('line_index') in ('reversed', 'shuffled'):
